@@ -39,6 +39,7 @@ func c08Tree(fs *simfs.FS) {
 	fs.MkPath("/b/")
 	fs.MkPath("/b/a")
 	fs.MkPath("/c")
+	fs.MkPath("/b/z")
 }
 
 // Bounded-exhaustive part: from a fixed state in which fids 1..7 are bound to
@@ -85,6 +86,10 @@ var c08Alphabet = func() []func() rc.Message {
 		f := f
 		add(func() rc.Message { return &rc.Twalk{Fid: f, NewFid: 8, Names: []string{"a"}} })
 	}
+	// the name "z" of /b was unlinked (fid 9 still holds the old file) and
+	// re-created during the set-up: renames of the new "z"
+	add(func() rc.Message { return &rc.Trenameat{OldDirFid: 5, OldName: "z", NewDirFid: 0, NewName: "c"} })
+	add(func() rc.Message { return &rc.Trenameat{OldDirFid: 5, OldName: "z", NewDirFid: 5, NewName: "y"} })
 	add(func() rc.Message { return &rc.Twalk{Fid: 3, NewFid: 8} })
 	add(func() rc.Message { return &rc.Tlcreate{Fid: 8, Name: "b", Flags: 2, Mode: 0o644} })
 	return out
@@ -196,6 +201,19 @@ func runC08(rcx *RunCtx) {
 				}
 				if rep := step(conns[0], &rc.Twalk{Fid: 0, NewFid: uint32(fid), Names: ns}); rep == nil || Errno(rep) != 0 {
 					find("setup", "setup", "could not bind fid %d to /%s", fid, c08Prebound[fid])
+					return
+				}
+			}
+		}
+		if sweep {
+			// a fenced fid whose name exists again
+			for _, m := range []rc.Message{
+				&rc.Twalk{Fid: 0, NewFid: 9, Names: []string{"b", "z"}},
+				&rc.Tunlinkat{DirFid: 5, Name: "z"},
+				&rc.Tmkdir{Dfid: 5, Name: "z", Mode: 0o755},
+			} {
+				if rep := step(conns[0], m); rep == nil || Errno(rep) != 0 {
+					find("setup", "setup", "set-up step %s failed", rc.String(m))
 					return
 				}
 			}
@@ -352,7 +370,7 @@ func init() {
 		Run:  runC08,
 		Directed: func(tier string) int { return c08SweepSize(tier) + createRaceCount() },
 		Quick:    96000, Thorough: 4500000, QuickSecs: 60, ThorSecs: 1500,
-		Rule: fmt.Sprintf("sweep: from a state with fids bound to /a, /a/a, /a/a/a, /a/b, /b, /b/a, /c, ALL sequences of depth 2 (quick) / 3 (thorough) over an alphabet of %d requests (24 Trename, 36 Trenameat incl. over existing targets and of whole subtrees, 8 Tunlinkat, 5 Tremove, 6 Tmkdir re-creating names, walks, clone, create); create-race: a Tlcreate parked in the backend while a rename / replace / unlink of the very name it creates (6 kinds, same or other connection) queues behind it, released under %d tape-chosen schedules each, then the created fid is probed, cloned and moved; ", len(c08Alphabet), createRaceSchedules) + "random: 1/5 a pair of the C06/C07 catalogue (A parked in its backend call, B queued or running, A released) under a tape-chosen schedule, then coherence and clone/getattr probes; 4/5 random histories of 8-68 requests (walk 1-3 components, clone, mkdir, create, rename, renameat incl. over existing targets and whole subtrees, unlinkat, remove, clunk, open/write) on 1-2 lock-step connections with up to 8 fids each on the same and nested paths of a depth-3 tree over names {a,b,c}. After EVERY request: (1) every live handle of the path-based backend resolves to the object it was bound to; (2) Tgetattr through every unfenced fid on every connection reports the bound inode; (3) fenced fids answer a child walk as the session model prescribes; (4) a successful rename put the inode where the request said; all replies also checked against the C04 session model (fencing errnos, no backend call). Non-trivial = the history contains a rename or unlink.",
+		Rule: fmt.Sprintf("sweep: from a state with fids bound to /a, /a/a, /a/a/a, /a/b, /b, /b/a, /c and a fenced fid on an unlinked /b/z whose name exists again, ALL sequences of depth 2 (quick) / 3 (thorough) over an alphabet of %d requests (24 Trename, 38 Trenameat incl. over existing targets and of whole subtrees, 8 Tunlinkat, 5 Tremove, 6 Tmkdir re-creating names, walks, clone, create); create-race: a Tlcreate parked in the backend while a rename / replace / unlink of the very name it creates (6 kinds, same or other connection) queues behind it, released under %d tape-chosen schedules each, then the created fid is probed, cloned and moved; ", len(c08Alphabet), createRaceSchedules) + "random: 1/5 a pair of the C06/C07 catalogue (A parked in its backend call, B queued or running, A released) under a tape-chosen schedule, then coherence and clone/getattr probes; 4/5 random histories of 8-68 requests (walk 1-3 components, clone, mkdir, create, rename, renameat incl. over existing targets and whole subtrees, unlinkat, remove, clunk, open/write) on 1-2 lock-step connections with up to 8 fids each on the same and nested paths of a depth-3 tree over names {a,b,c}. After EVERY request: (1) every live handle of the path-based backend resolves to the object it was bound to; (2) Tgetattr through every unfenced fid on every connection reports the bound inode; (3) fenced fids answer a child walk as the session model prescribes; (4) a successful rename put the inode where the request said; all replies also checked against the C04 session model (fencing errnos, no backend call). Non-trivial = the history contains a rename or unlink.",
 		Assume: []string{"object identity = backend inode number; fenced = the backend's own record that the directory entry the handle named was removed or overwritten"},
 		Real:   []string{"p9.Server", "p9 path tree / fid table / handlers", "p9 wire codec"},
 		Stub:   []string{"transport (simnet pipes)", "backend tree (simfs, path-based handles)", "raw 9P peer (refcodec)"},
